@@ -99,7 +99,7 @@ func c12Setup(recv string, L int, flags uint64, format string, via int) slog.Log
 
 // c12child <recv> <name> <arg> <variant> <L> <flags> <format> <msghex> <via>
 func c12Child(a []string) {
-	if len(a) != 9 {
+	if len(a) != 9 && len(a) != 10 { // an optional tenth argument is ignored by the child itself
 		os.Exit(4)
 	}
 	arg, _ := strconv.Atoi(a[2])
@@ -152,9 +152,13 @@ func c12Neg(a []string) {
 	fmt.Println("INTESTING", slog.VerifInTesting())
 	_ = slog.RegisterLevel(slog.Level(40), "c12aspanic", slog.RegWithTreatedAsLevel(slog.PanicLevel))
 	_ = slog.RegisterLevel(slog.Level(41), "c12asfatal", slog.RegWithTreatedAsLevel(slog.FatalLevel), slog.RegWithPrintToErrorDevice())
+	// levels without short tags of their own whose titles are shorter than the tag column: the tag is the padded title
+	_ = slog.RegisterLevel(slog.Level(50), "V", slog.RegWithTreatedAsLevel(slog.InfoLevel))
+	_ = slog.RegisterLevel(slog.Level(51), "ab", slog.RegWithTreatedAsLevel(slog.WarnLevel))
 	ctx := context.Background()
 	for _, recv := range []string{"l", "p"} {
 		for _, L := range []int{6, 8, 0} {
+			slog.SetLevelOutputWidth(map[int]int{6: 5, 8: 4, 0: 3}[L])
 			l := c12Setup(recv, L, flags, a[1], L)
 			eps := loggerEPs
 			if recv == "p" {
@@ -164,7 +168,7 @@ func c12Neg(a []string) {
 				var argsList []int
 				switch {
 				case name == "LogAttrs" || name == "Logit":
-					argsList = []int{2, 3, 4, 5, 6, 7, 8, 9, 10, 11, 12, 33, 40, 41, -1}
+					argsList = []int{2, 3, 4, 5, 6, 7, 8, 9, 10, 11, 12, 33, 40, 41, -1, 50, 51}
 				case name == "Log":
 					argsList = []int{-20, -16, -8, -4, 0, 1, 2, 3, 4, 8, 9, 12, 13, 15, 18, 100}
 				case fixedSeverity[baseVerb(name)] <= 1 && baseVerb(name) != "Verbose":
@@ -280,8 +284,13 @@ func runC12(r *run) {
 			defer wg.Done()
 			defer func() { <-sem }()
 			c := cells[idx]
-			out, code := c12Spawn(exe, c.testing, "c12child", c.recv, c.name, strconv.Itoa(c.arg), "0", strconv.Itoa(c.L),
-				strconv.FormatUint(c.flags, 10), c.format, hex.EncodeToString([]byte(c.msg)), strconv.Itoa(idx))
+			args := []string{c.recv, c.name, strconv.Itoa(c.arg), "0", strconv.Itoa(c.L),
+				strconv.FormatUint(c.flags, 10), c.format, hex.EncodeToString([]byte(c.msg)), strconv.Itoa(idx)}
+			if !c.testing && idx%4 == 2 {
+				// an ordinary program may take arguments of any spelling; that does not make it a test or benchmark run
+				args = append(args, []string{"-benchmark-db=off", "-bench", "-test-data=x"}[(idx/4)%3])
+			}
+			out, code := c12Spawn(exe, c.testing, "c12child", args...)
 			res := c12Result{raw: out, outcome: "exit " + strconv.Itoa(code)}
 			sc := bufio.NewScanner(strings.NewReader(out))
 			sc.Buffer(make([]byte, 1<<20), 1<<20)
@@ -355,9 +364,11 @@ func runC12(r *run) {
 	// negative sweeps (the child registers 40 treated as Panic and 41 treated as Fatal)
 	r.emit("C12 reg 40 0", "ok")
 	r.emit("C12 reg 41 1", "ok")
+	r.emit("C12 reg 50 4", "ok") // "V", treated as Info
+	r.emit("C12 reg 51 3", "ok") // "ab", treated as Warn
 	for _, testing := range []bool{false, true} {
 		for _, fl := range []uint64{0, always} {
-			for _, format := range []string{"logfmt"} {
+			for _, format := range []string{"logfmt", "color"} {
 				out, code := c12Spawn(exe, testing, "c12neg", strconv.FormatUint(fl, 10), format)
 				lines := strings.Split(out, "\n")
 				var cur string
